@@ -13,6 +13,7 @@ mod c01;
 mod enc;
 mod c08;
 mod c10;
+mod c18;
 mod c02;
 
 pub struct Out {
@@ -79,6 +80,8 @@ fn main() {
                 "C19" => c19::gen(seed, n, &mut out),
                 "C08" | "C09" => c08::gen(prop, seed, n, &mut out),
                 "C10" | "C11" | "C12" => c10::gen(prop, seed, n, &mut out),
+                "C18g6" => c18::gen_g6(seed, n, &mut out),
+                "C18dot" => c18::gen_dot(seed, n, &mut out),
                 "C01" => c01::gen(seed, n, &mut out),
                 "C02" => c02::gen(seed, n, &mut out),
                 "C03" => c03::gen(seed, n, &mut out),
